@@ -53,6 +53,7 @@ struct scan_context
   int stack_depth;
   strbuf_t string;
   strvec_t filenames;
+  int input_error; /* set when a read from an input stream failed */
 };
 
 extern void libconfig_scanctx_init(struct scan_context *ctx,
